@@ -75,7 +75,7 @@ func errClass(line string) string {
 // evalLoad compares one configuration (impl vs model) and runs the load-time oracle on it.
 // It returns the implementation's result.
 func evalLoad(x *ctx, cs Case, mo *modelOut) ImplResult {
-	doc := cs.Cfg.JSON(x.dir)
+	doc := loadDoc(cs.Cfg, x.dir)
 	impl := load(doc, false)
 	implMig := load(doc, true)
 	class := errClass(impl.Line)
@@ -133,7 +133,7 @@ func evalLoad(x *ctx, cs Case, mo *modelOut) ImplResult {
 		name string
 		cfg  ConfigC
 	}{{"empty-string", emptyForOmitted(cs.Cfg)}, {"explicit-default", explicitDefaults(cs.Cfg)}} {
-		r := load(vr.cfg.JSON(x.dir), false)
+		r := load(loadDoc(vr.cfg, x.dir), false)
 		if r.Line != impl.Line {
 			key := "omitted-differs-from-" + vr.name
 			if r.Eff != nil && onlyRejectDiffers(impl.Eff, r.Eff) {
@@ -143,6 +143,11 @@ func evalLoad(x *ctx, cs Case, mo *modelOut) ImplResult {
 		}
 	}
 	return impl
+}
+
+// loadDoc renders the document for a load-only run (nothing is bound; smoke placeholders become fixed addresses).
+func loadDoc(c ConfigC, dir string) []byte {
+	return []byte(strings.NewReplacer("@FRONT@", "127.0.0.1:11", "@TEST@", "127.0.0.1:10", "@ECHOHOST@", "localhost:9", "@ECHO@", "127.0.0.1:9").Replace(string(c.JSON(dir))))
 }
 
 func onlyRejectDiffers(a, b *Eff) bool {
@@ -295,7 +300,7 @@ func probes(x *ctx) error {
 		}
 		c2 := mk(^uint64(0))
 		cs2 := Case{Kind: "probe", Probe: "F15-replay", Cfg: c2}
-		if r := load(c2.JSON(x.dir), false); r.Eff != nil && r.Eff.Servers[1].FS == fmt.Sprint(^uint64(0)) {
+		if r := load(loadDoc(c2, x.dir), false); r.Eff != nil && r.Eff.Servers[1].FS == fmt.Sprint(^uint64(0)) {
 			// the server hands exactly this size to ss2022.NewSlidingWindowFilter per session; 2^64-1 allocates one word
 			f := ss2022.NewSlidingWindowFilter(^uint64(0))
 			a1, _, a3 := f.Add(5), f.Add(1000), f.Add(5)
